@@ -65,7 +65,14 @@ def classify_operand(a, state, ff, optypes, depth=0):
                 continue
             todo.append(v.value)
         elif isinstance(v, Phi):
-            todo.extend(v.options)
+            opts = list(v.options)
+            # `if isinstance(x, Container): x = self.results[x.name]`: on the paths where the declared operand reaches
+            # the call unchanged it is not a container
+            rebound = [o for o in opts if isinstance(o, Ref) and isinstance(getattr(o.stmt, 'parent', None), ast.If)
+                       and _is_value_type_test(o.stmt.parent.test, o.name) and any(o.stmt is x for x in o.stmt.parent.body)]
+            if rebound:
+                opts = [o for o in opts if not (isinstance(strip_refs(o), Elt) or isinstance(o, Elt))] or rebound
+            todo.extend(opts)
         elif isinstance(v, ast.IfExp):
             todo.extend([v.body, v.orelse])
         elif isinstance(v, Elt):
@@ -97,6 +104,12 @@ def classify_operand(a, state, ff, optypes, depth=0):
     if 'CURRENT' in verdicts:
         return 'CURRENT'
     return 'OTHER'
+
+
+def _is_value_type_test(test, name):
+    return isinstance(test, ast.Call) and getattr(test.func, 'id', '') == 'isinstance' and len(test.args) == 2 and \
+        isinstance(test.args[0], ast.Name) and test.args[0].id == name and \
+        any(t in unparse(test.args[1]) for t in VALUE_TYPES)
 
 
 def _reads_current(v):
@@ -149,9 +162,21 @@ def run(ctx):
             from_operand = any(isinstance(n, Elt) and isinstance(strip_refs(n.value), ast.Attribute) and
                                strip_refs(n.value).attr == 'operands' for n in deep_walk(k))
             ok = from_record and not from_operand
+            if from_operand:
+                # acceptable if the step-adding method checked that operand as declared (C16.R3)
+                from .c16 import declared_gate, steps_appends
+                anns, ctor, mfi = optypes[op]
+                idxs = [n.index for n in deep_walk(k) if isinstance(n, Elt) and isinstance(n.index, int) and
+                        isinstance(strip_refs(n.value), ast.Attribute) and strip_refs(n.value).attr == 'operands']
+                mff = ctx.flow(mfi.qualname)
+                ok = bool(idxs)
+                for i in idxs:
+                    arg = ctor.args[4 + i] if 4 + i < len(ctor.args) else None
+                    if not (isinstance(arg, ast.Name) and declared_gate(mfi, mff, steps_appends(mff), arg.id)):
+                        ok = False
             ctx.ob('C08.R2', bake, stmt.lineno, f"`{op}` branch: result stored under the name of the step's own source / "
                                                 f"destination (`{show(k, 25)}`)", ok,
-                   fact=('key derives from the step record' if ok else 'key derives from an operand of the step'),
+                   fact=('key derives from the step record' if ok and not from_operand else 'key derives from an operand that the step-adding method checked as declared' if ok else 'key derives from an operand of the step'),
                    why='the result is stored under a name that was never checked as declared: an undeclared object '
                        'silently enters the results', key=f"result key from operand in {op}")
     # ---------------------------------------------------------------- R3 no effect before bake
